@@ -1,7 +1,7 @@
 (* Ldhcp6 — DHCPv6 message and option codec (layers/dhcpv6.go, dhcpv6_options.go): contributions to C19, C05, C06, C07, C01.
    Refuted for the code before the repairs: C19 (option end computed in uint16), C05 (header fields of the other message
    kind kept), C01 (requested-options String). *)
-From GP Require Import Base ListX Codec MiscLib Ldhcp6Model.
+From GP Require Import Base ListX Codec MiscLib Ldhcp6Model Ldhcp4Ser Ldhcp6Rt.
 From Coq Require Import Lia ZifyBool ZifyNat.
 Open Scope Z_scope.
 Ltac Zify.zify_post_hook ::= Z.div_mod_to_equations.
@@ -84,12 +84,6 @@ Proof. exists [1;0;0;0; 0;6;0;3; 0;1;0]. split; vm_compute; reflexivity. Qed.
 (* ---------------------------------------------------------------- serializer *)
 Definition d6_lens_ok (l : dhcp6) : Prop := Forall (fun o => 0 <= o6_len o) (d6_opts l).
 
-Lemma d6_zero_region n junk : map (fun _ : Z => 0) (cd_region n junk) = repeat 0 (Z.to_nat n).
-Proof.
-  assert (G : forall l : list Z, map (fun _ : Z => 0) l = repeat 0 (length l)) by (induction l as [|x l IH]; cbn; [reflexivity|rewrite IH; reflexivity]).
-  rewrite G. f_equal. unfold cd_region. rewrite firstn_length, app_length, repeat_length. lia.
-Qed.
-
 Lemma wrc_len b i vs : 0 <= i -> i + zlen vs <= zlen b -> exists b', ml_wrc b i vs = Ok b' /\ zlen b' = zlen b.
 Proof. intros. rewrite ml_wrc_ok by lia. eexists; split; [reflexivity|apply cd_wr_length]. Qed.
 Lemma copy_len b i vs : 0 <= i <= zlen b -> exists b', ml_copy b i vs = Ok b' /\ zlen b' = zlen b.
@@ -146,16 +140,15 @@ Theorem C07_dhcp6_junk_free : forall l payload fixl csum junk1 junk2,
 Proof. intros. unfold d6_serialize, d6_serialize_gen. cbv zeta. rewrite !d6_zero_region. reflexivity. Qed.
 Print Assumptions C07_dhcp6_junk_free.
 
-(* ---------------------------------------------------------------- round trip (statement; see the proof status in CONF) *)
-Definition d6_opt_wf (o : opt6) : Prop := 0 <= o6_code o < 65536 /\ o6_len o = zlen (o6_data o) /\ zlen (o6_data o) < 65536 /\ bytes_ok (o6_data o).
-Definition d6_wf (l : dhcp6) : Prop :=
-  0 <= d6_mt l < 256 /\ Forall d6_opt_wf (d6_opts l) /\
-  (if d6_relay (d6_mt l) then 0 <= d6_hop l < 256 /\ zlen (d6_link l) = 16 /\ zlen (d6_peer l) = 16 /\ bytes_ok (d6_link l) /\ bytes_ok (d6_peer l) /\ d6_xid l = []
-   else zlen (d6_xid l) = 3 /\ bytes_ok (d6_xid l) /\ d6_hop l = 0 /\ d6_link l = [] /\ d6_peer l = []).
-Definition C06_dhcp6_roundtrip_stmt : Prop := forall l fixl csum junk bytes l' old,
+(* ---------------------------------------------------------------- round trip (coq/Proofs/Ldhcp6Rt.v) *)
+(* a well-formed message (option Length = len(Data), 16-octet addresses for relay messages, a 3-octet transaction id
+   otherwise) serialized without payload decodes to itself; the serializer output is header ++ options (d6_serialize_closed) *)
+Theorem C06_dhcp6_roundtrip : forall l fixl csum junk bytes l' old,
   d6_wf l -> d6_serialize l [] fixl csum junk = (Ok bytes, l') ->
   d6_opts l' = d6_opts l /\ zlen bytes = d6_len l /\
   d6_decode_into old bytes = (mkD6 bytes [] (d6_mt l) (d6_hop l) (d6_link l) (d6_peer l) (d6_xid l) (d6_opts l), Ok tt, false).
+Proof. exact d6_roundtrip. Qed.
+Print Assumptions C06_dhcp6_roundtrip.
 
 Example Ldhcp6_nonvacuous :
   let l := mkD6 [] [] 1 0 [] [] [7;8;9] [mkO6 1 3 [5;5;5]; mkO6 6 0 []] in
